@@ -374,6 +374,115 @@ theorem hex_spelling (st : St) (hm : st.mode = .main) (body : Bytes) (pos : Nat)
   have a62 : isAlpha 62 = false := by decide
   simp [atHit, parseMainHit, emit, htp, accum, d62, a62]
 
+/-- the bytes the CODE makes of a run of hex digits: pairs, a final odd digit read as the LOW nibble
+    (ISO 32000-1 7.3.4.3 says high nibble: `pairUp`) -/
+def codePairUp : Bytes → Bytes
+  | [] => []
+  | [a] => [UInt8.ofNat (hexCharVal a)]
+  | a :: b :: t => UInt8.ofNat (hexCharVal a * 16 + hexCharVal b) :: codePairUp t
+
+theorem hexPairs_all : ∀ (ds : Bytes), (∀ c ∈ ds, isHEX c = true) → hexPairs ds = some (codePairUp ds)
+  | [], _ => rfl
+  | [a], hh => by
+    have ha := hh a (by simp)
+    have h1 := hex_digit a
+    simp only [ha, Bool.not_true, Bool.false_or, digitBelow] at h1
+    have hne : (a == 10) = false := by
+      cases h : (a == 10) with
+      | false => rfl
+      | true => have : a = 10 := by simpa using h
+                subst this; exact absurd ha (by decide +kernel)
+    split at h1
+    · rename_i x hx
+      simp [hexPairs, hne, hx, codePairUp, hexCharVal]
+    · simp at h1
+  | a :: b :: t, hh => by
+    have ha := hh a (by simp)
+    have hb := hh b (by simp)
+    have ih := hexPairs_all t (fun x hx => hh x (by simp [hx]))
+    have h1 := hex_digit a
+    have h2 := hex_digit b
+    simp only [ha, hb, Bool.not_true, Bool.false_or, digitBelow] at h1 h2
+    split at h1
+    · rename_i x hx
+      split at h2
+      · rename_i y hy
+        simp [hexPairs, ha, hb, hx, hy, ih, codePairUp, hexCharVal]
+      · simp at h2
+    · simp at h1
+
+/-- with an even number of digits the code's reading is ISO's -/
+theorem codePairUp_even : ∀ (n : Nat) (ds : Bytes), ds.length = 2 * n → codePairUp ds = pairUp ds
+  | 0, ds, hl => by
+    have : ds = [] := by cases ds with
+      | nil => rfl
+      | cons _ _ => simp at hl
+    subst this; rfl
+  | n + 1, ds, hl => by
+    match ds, hl with
+    | a :: b :: t, hl => simp [codePairUp, pairUp, codePairUp_even n t (by simp at hl; omega)]
+    | [_], hl => simp at hl; omega
+    | [], hl => simp at hl
+
+/-- What the code reads for ANY digit count (`codePairUp`: a final odd digit is the LOW nibble):
+    `<` in the main scanner, the body (hex digits and white space anywhere), `>`: one string token; the `>` leaves the tokenizer in `_parse_wclose`. -/
+theorem hex_spelling_code (st : St) (hm : st.mode = .main) (body : Bytes) (pos : Nat)
+    (hb : ∀ c ∈ body, isHEX c = true ∨ isSPC c = true) :
+    foldBytes st (60 :: body ++ [62]) pos =
+      ({ st with tpos := pos + 1 + body.length, cur := [], mode := .wclose },
+       [(pos, Token.str (codePairUp (body.filter (fun c => !isSPC c))))]) := by
+  have hf := hex_byte_facts
+  simp only [Bool.and_eq_true] at hf
+  -- `<`
+  have s1 : stepByte st 60 pos = ({ st with tpos := pos, cur := [], mode := .wopen }, []) := by
+    rw [step_hit st 60 pos (Or.inr ⟨isNONSPC, by simp [hm, searchClass], hf.1.2⟩)]
+    have d60 : isDigit 60 = false := by decide
+    have a60 : isAlpha 60 = false := by decide
+    simp [atHit, hm, parseMainHit, d60, a60]
+  -- the byte after `<` is not `<`: the wopen scanner hands over to the hexstring scanner
+  have hnot60 : ∀ c ∈ body ++ [62], (c == 60) = false := by
+    intro c hc
+    rcases List.mem_append.mp hc with h | h
+    · have := hexbody_facts c
+      have hor : (isHEX c || isSPC c) = true := by rcases hb c h with h | h <;> simp [h]
+      simp only [hor, Bool.not_true, Bool.false_or, Bool.and_eq_true] at this
+      simpa using this.2
+    · simp at h; subst h; decide
+  have s2 : ∀ (c : UInt8) (tl : Bytes) (p : Nat), (c == 60) = false →
+      foldBytes { st with tpos := pos, cur := [], mode := .wopen } (c :: tl) p =
+      foldBytes { st with tpos := pos, cur := [], mode := .hexstring } (c :: tl) p := by
+    intro c tl p hc
+    simp only [foldBytes]
+    rw [step_hit { st with tpos := pos, cur := [], mode := .wopen } c p (Or.inl (by simp [searchClass]))]
+    simp [atHit, parseWopenHit, hc]
+  have hne : ∀ x ∈ body, isEND_HEX_STRING x = false := by
+    intro c h
+    have := hexbody_facts c
+    have hor : (isHEX c || isSPC c) = true := by rcases hb c h with h | h <;> simp [h]
+    simp only [hor, Bool.not_true, Bool.false_or, Bool.and_eq_true] at this
+    simpa using this.1
+  have hdig : ∀ c ∈ body.filter (fun c => !isSPC c), isHEX c = true := by
+    intro c hc
+    have hm' := List.mem_filter.mp hc
+    rcases hb c hm'.1 with h | h
+    · exact h
+    · simp [h] at hm'
+  have hpairs := hexPairs_all _ hdig
+  simp only [List.cons_append, foldBytes, s1, List.nil_append]
+  have hsplit : body ++ [62] = (body ++ [62]).head (by simp) :: (body ++ [62]).tail := by simp
+  rw [hsplit, s2 _ _ _ (hnot60 _ (List.head_mem _)), ← hsplit]
+  rw [fold_nonmatch isEND_HEX_STRING body [62] _ (pos + 1) (by simp [searchClass]) hne]
+  simp only [foldBytes]
+  rw [step_hit _ 62 _ (Or.inr ⟨isEND_HEX_STRING, by simp [searchClass], hf.1.1⟩)]
+  have hacc : (accum { st with tpos := pos, cur := [], mode := .hexstring } body).cur = body := by simp [accum]
+  have hmode : (accum { st with tpos := pos, cur := [], mode := .hexstring } body).mode = .hexstring := by simp
+  have htp : (accum { st with tpos := pos, cur := [], mode := .hexstring } body).tpos = pos := by simp [accum]
+  simp only [atHit, hmode, parseHexstringHit, hacc, hpairs, Bool.false_eq_true, if_false]
+  rw [step_hit _ 62 _ (Or.inr ⟨isNONSPC, by simp [searchClass], hf.2⟩)]
+  have d62 : isDigit 62 = false := by decide
+  have a62 : isAlpha 62 = false := by decide
+  simp [atHit, parseMainHit, emit, htp, accum, d62, a62]
+
 /-! ### literal strings -/
 
 inductive Eol where
